@@ -44,24 +44,31 @@ class StepMonitor:
         def step(net, *args, **kwargs):
             if not mon.enabled:
                 return orig(net, *args, **kwargs)
-            mon.rec.count("step_calls")
-            try:
-                out = orig(net, *args, **kwargs)
-            except BaseException as exc:  # observed, then re-raised unchanged
-                try:
-                    mon._exception(net, args, kwargs, exc)
-                except Exception:
-                    mon.rec.count("monitor_internal_errors")
-                raise
-            try:
-                mon._after(net, args, kwargs)
-            except Exception as e:
-                mon.rec.count("monitor_internal_errors")
-                mon.rec.seen("monitor_internal_errors", repr(e)[:200])
-            return out
+            return mon.around(net, args, kwargs, lambda: orig(net, *args, **kwargs))
 
+        step._vf_monitor = mon
         M.Network.step = step
         return self
+
+    def around(self, net, args, kwargs, run):
+        """Runs one step (``Network.step`` itself, or the same step written with element-level calls)
+        and observes it."""
+        mon = self
+        mon.rec.count("step_calls")
+        try:
+            out = run()
+        except BaseException as exc:  # observed, then re-raised unchanged
+            try:
+                mon._exception(net, args, kwargs, exc)
+            except Exception:
+                mon.rec.count("monitor_internal_errors")
+            raise
+        try:
+            mon._after(net, args, kwargs)
+        except Exception as e:
+            mon.rec.count("monitor_internal_errors")
+            mon.rec.seen("monitor_internal_errors", repr(e)[:200])
+        return out
 
     def uninstall(self):
         if self._orig is not None:
